@@ -19,7 +19,7 @@ CHECKS = {
          "harness reading of the Conway preservation rule and deposit table; world UTxOs truthful; sampling, not enumeration"),
  "C06": ("seeded search over wallet sessions biased to CBOR width boundaries and all witness kinds; each built transaction is signed with exactly the distinct required keys and its fee compared with an independent minimum-fee computation (linear + ex-units + tier-by-tier reference-script fee with exact rationals); fee-request clauses checked",
          "required-witness table and fee formula of notes/ORACLE_SPEC.md; reference scripts charged by their smallest defensible size; truthful declarations by the history; sampling"),
- "C07": ("seeded search over wallet sessions with randomised coins_per_byte / max_value_size / max_tx_size; every output of every built transaction and helper-made collateral returns are checked for min-ADA and value size, the signed transaction for max_tx_size, and min_ada_for_output on each observed output against both bounds",
+ "C07": ("seeded search over wallet sessions with randomised coins_per_byte / max_value_size / max_tx_size; every output of every built transaction, the collateral return in built bodies and the one the builder holds after every successful checked collateral call are checked for min-ADA and value size, the signed transaction for max_tx_size, and min_ada_for_output on each observed output against both bounds",
          "builder clause claimed; the stand-alone function clause only on outputs sessions produce; sampling"),
  "C09": ("seeded search over Plutus wallet sessions (scripts and datums by value / inline / by reference, extra and duplicated datums, cost models V1-V3, metadata; coin selection moves spend indices); body[7] and body[11] of every built transaction are recomputed from the byte spans of the emitted auxiliary data, redeemers and datums plus the harness's own language-views encoding; the stand-alone hashing helpers are checked on the same artefacts",
          "script data hash judged only when calc_script_data_hash was the last script-affecting operation; harness reading of the script-integrity definition; sampling"),
@@ -27,17 +27,17 @@ CHECKS = {
          "reward accounts / voters ranked in the ledger's derived order (script credentials before key credentials); sampling"),
  "C18": ("seeded search over wallet sessions with overlapping signers across six sources and scripts by value or reference; required scripts, datums and redeemers derived from the emitted body and the world are looked up in the witness set / reference inputs; full_size() is compared with the byte length after signing with exactly the distinct required keys (0 <= diff < 101); truthful empty signer declarations for scripts satisfiable by time alone",
          "truthful declarations by the history (native signers, reference-script sizes); extraneous scripts not judged; sampling"),
- "C19": ("seeded search over sessions with the three collateral-setting paths, return outputs with fewer/equal/more/foreign assets, percentages 0-1000, the percentage helper running a full random selection, and failing helpers after which the session continues; fields 13/16/17 of the emitted body are checked as a whole-value equation against ground-truth collateral UTxOs, return min-ADA, percentage, and residue after failure",
+ "C19": ("seeded search over sessions with the three collateral-setting paths, return outputs with fewer/equal/more/foreign assets, percentages 0-1000, the percentage helper running a full random selection, failing helpers after which the session continues, the unchecked setters before a checked call with the same output, and checked calls repeated (also with the return's datum in another encoding); fields 13/16/17 of the emitted body are checked as a whole-value equation against ground-truth collateral UTxOs, return min-ADA, percentage, and residue after failure",
          "judged only when a helper was the last collateral-affecting operation; sampling"),
- "C20": ("seeded search over sessions with certificates of all kinds (incl. pre-Conway), withdrawals and proposals in seeded orders; on every body a session builds (or that is forced from the final builder state) get_deposit / get_implicit_input are compared with the node's table and with the builder's own figures, including totals beyond 64 bits (explicit amounts near 2^63 / 2^64, must be errors on both sides) and a typed withdrawal map filled by the history's own set/replace calls",
+ "C20": ("seeded search over sessions with certificates of all kinds (incl. pre-Conway), withdrawals and proposals in seeded orders; on every body a session builds (or that is forced from the final builder state) get_deposit / get_implicit_input are compared with the node's table and with the builder's own figures, including totals beyond 64 bits (explicit amounts near 2^63 / 2^64, must be errors on both sides) a typed withdrawal map filled by the history's own set/replace calls, and the certificates and distinct proposals of the body against what the history's successful calls handed over",
          "weakest fit of the technique: a cross-invariant between two components on reached states (built, or forced out of the final builder state); sampling"),
  "C13": ("seeded search over create_send_all calls (UTxO sets up to 60 / 400 entries, up to 24 policies and 30 assets per UTxO, names 0-32 bytes, amounts across CBOR width classes, Byron and Shelley owners, UTxOs partly decoded from another producer's CBOR, pure-ADA values with an empty asset map, policy entries without assets, small K9 limits so that several outputs and transactions are needed, adaptive value-size limits that bind on the largest value a first measurement produced), each executed under K hash-key schedules of the batcher's hash containers; every returned transaction is re-read and checked: partition of the supplied set, target-only outputs, preservation of value, minimum fee of the bytes with real signatures, min-ADA, value and transaction size",
          "groupings may differ between hash orders, each result must be valid; script-owned UTxOs are expected to be refused; the Conway surcharge for reference scripts carried by spent UTxOs is outside the statement's fee clause and only recorded; sampling"),
- "C16": ("seeded search over three actors: collection histories for 10 set-like types (add with repeats, decode from harness-written bytes repeating elements in tagged/untagged/definite/indefinite/wide encodings and with element occurrences in another producer's encoding, elements arriving through the element decoders, from_json with repeats, clone, restart from bytes/hex/JSON) against a first-insertion-dedup vector model; asset maps filled in seeded permutations read back for canonical key order; wallet sessions whose every successful build is repeated on the unchanged builder and clones under fresh hash keys and compared byte for byte",
+ "C16": ("seeded search over three actors: collection histories for 10 set-like types (add with repeats, decode from harness-written bytes repeating elements in tagged/untagged/definite/indefinite/wide encodings and with element occurrences in another producer's encoding, elements arriving through the element decoders, from_json with repeats, clone - the collection a copy was taken from is held and re-checked after every later step -, restart from bytes/hex/JSON) against a first-insertion-dedup vector model; asset maps filled in seeded permutations read back for canonical key order; wallet sessions whose every successful build - at the end and in the middle of the history - is repeated on the builder snapshot kept with it and on clones, under fresh hash keys, after everything that happened to the live builder later, and compared byte for byte",
          "two builders filled the same way are replayed but only recorded (the statement speaks of rebuilding an unchanged builder); the stand-alone Mint list type is insertion ordered by design and only its per-policy names are judged; sampling"),
  "C03": ("seeded search over wallet sessions of a profile that enables every feature (all certificate kinds, all governance actions incl. parameter updates, votes, withdrawals, mint, all output forms, all witness kinds, the three auxiliary-data shapes) plus create_send_all calls; every emitted transaction, as built and again after signing, is validated byte by byte by a strict schema-directed Conway validator that shares no code with the library or cbor_event",
          "claimed for transactions the builder and the batcher emit (typed values that never occur in a built transaction are not claimed); harness transcription of the Conway CDDL; key order of struct-like maps not judged; sampling"),
- "C04": ("seeded search over multi-party signing histories: a transaction built by a simulated wallet session, optionally presigned by the wallet and re-encoded by a foreign peer (wide heads, indefinite containers, chunked byte strings, permuted maps, untagged sets, the pre-Alonzo 3-element transaction shape), is loaded by up to 5 signer nodes from bytes or hex, signed through both APIs with key / Icarus / Daedalus keys, restarted, forwarded in seeded order, delivered twice, merged witness by witness; after every step every node's copy is checked against the original byte spans, Blake2b-256 of the original body and Ed25519 verification; every datum span is relayed through the PlutusData codec",
+ "C04": ("seeded search over multi-party signing histories: a transaction built by a simulated wallet session, optionally presigned by the wallet and re-encoded by a foreign peer (wide heads, indefinite containers, chunked byte strings, permuted maps, untagged sets, the pre-Alonzo 3-element transaction shape), is loaded by up to 5 signer nodes from bytes or hex, signed through both APIs with key / Icarus / Daedalus keys, restarted, forwarded in seeded order, delivered twice, merged witness by witness, handed on as in-memory copies (a copy is a separate party: what its holder does must not reach the owner of the original); after every step every node's copy is checked against the original byte spans, Blake2b-256 of the original body and Ed25519 verification; every datum span is relayed through the PlutusData codec",
          "encodings the decoder rejects are counted, not claimed; Ed25519 determinism is used to know the expected witness; quantifier covers add-signature operations; sampling"),
 }
 def main():
